@@ -12,3 +12,60 @@ def _bin():
 
 def prebuild():
     _bin()
+
+
+def run(tier):
+    b = _bin()
+    ck = runner.Check(PROP, tier, "model_checking")
+    q = tier == "quick"
+    n = runner.NCPU
+    if q:
+        stages = [
+            ["syntax", "L=7"],
+            ["edit", "depth=2", "finalq=1"],
+            ["edit", "depth=1", "cim=1", "finalq=1"],
+            ["flat", "N=5"],
+        ]
+    else:
+        stages = [
+            ["syntax", "L=8"],
+            ["edit", "depth=3", "finalq=0"],
+            ["edit", "depth=2", "cim=1", "finalq=0"],
+            ["flat", "N=7"],
+        ]
+    for st in stages:
+        # edit: every slice repeats the cheap shared levels, so more slices than cores does not pay
+        ck.add(runner.run_slices(b, st, nslices=n if st[0] == "edit" else n * 4, env=ENV, timeout=7200))
+    ck.rule = ("syntax: every string of length <= L over {/ ~ 0 1 a} (quick 7, thorough 8), as a pointer string (parse / constructors accept exactly the "
+               "RFC 6901 grammar, to_string(parse(s)) == s, tokens == reference un-escaping, operator/=, append, operator/ and operator<< rebuild s) and as a "
+               "raw token (escape, escape_string, escape-into agree with the reference escaping and parse back). edit: breadth-first search over edit histories "
+               "from {}, [], {\"a\":[1,2],\"b\":{\"c\":1}}, [[1],{\"a\":1}] on json and ojson; a state is a document (de-duplicated on its canonical text, member "
+               "order included for ojson), a transition is one real call of add / add_if_absent / replace / remove with one of 276 pointers (<= 2 tokens over "
+               "{a,b,c,0,1,2,-,01,-1,+1,1e0,\"\",a~1b,m~0n,e-acute,18446744073709551616} plus the invalid strings a, /~, /a~2) and a value of {1,{\"x\":1},[1]}; "
+               "histories of length <= 2 (quick) / <= 3 (thorough) are executed; in every expanded state (quick: also in the states reached by the last step) every "
+               "pointer is looked up with contains/get. A second search uses add/add_if_absent/replace with create_if_missing=true (histories <= 1 quick, <= 2 thorough). "
+               "Oracle: RFC 6901 resolution over the model value (index syntax 0|[1-9][0-9]*, '-' only for add at the end, add inserts/shifts, replace needs the "
+               "location, add_if_absent never overwrites a member); on any error the document must be unchanged. The shared levels also run the json_pointer-object/"
+               "throwing overloads. states = expanded states, transitions = edit calls + lookups in them. flat: every tree with <= N nodes (quick 5, thorough 7) over "
+               "member names {a, b/~, \"\"} and leaves {null,1,\"x\",{},[]}: flatten(d) has one member per leaf named by its pointer and unflatten(flatten(d)) == d, "
+               "plus three documents with a 12-element array. non-trivial = valid pointer strings + edits the reference accepts + trees with at least one child.")
+    ck.assumptions = [
+        "add_if_absent with the empty pointer and remove of the whole document are not fixed by RFC 6901 or the documentation: abstained (only 'error => unchanged' is demanded)",
+        "successor states are taken only from transitions on which implementation and reference agree; a disagreeing transition is reported and not followed",
+        "states first reached by the last step of a history are not expanded; each slice counts them separately (not part of `states`)",
+        "member names that are array-index-like (all digits) are outside the flatten/unflatten statement and are not generated; '-' is treated as index-like and not generated either",
+        "object member order is not compared (ojson keeps insertion order; RFC 6901 does not speak about order)",
+    ]
+    ck.finish(lambda sig: replay(sig))
+
+
+def replay(sig):
+    b = _bin()
+    rc, out, err = runner.run_cmd([b, "replay", sig], timeout=120, env=ENV)
+    r = runner.Result()
+    r.feed(out)
+    if r.errors or rc != 0:
+        return False, "replay error: %s %s" % (r.errors, err[-500:])
+    if sig in r.viol:
+        return True, r.viol[sig]
+    return False, ""
